@@ -51,7 +51,7 @@ def results_table(res: Any) -> dict:
         if tag == "statistics":
             continue
         vals = []
-        for t, v in zip(res.get_result_times(tag), res.get_tagged_results(tag) if hasattr(res, "get_tagged_results") else getattr(res, tag)):
+        for t, v in zip(res.get_result_times(tag), getattr(res, tag)):
             if isinstance(v, torch.Tensor):
                 v = v.detach().cpu().tolist()
             elif hasattr(v, "items"):
